@@ -138,12 +138,18 @@ class Walker:
     SOMENESS_PRESERVING = ("std::option::Option::map", "std::option::Option::as_ref", "std::option::Option::as_mut", "std::option::Option::cloned",
                            "std::option::Option::copied", "std::option::Option::as_deref", "std::option::Option::inspect")
 
+    # adapters that map Ok to Ok and Err to Err: `x.map_err(f)?` succeeds exactly when `x?` does
+    OKNESS_PRESERVING = ("std::result::Result::map_err", "std::result::Result::map", "zksync_concurrency::error::Wrap::wrap", "zksync_concurrency::error::Wrap::with_wrap",
+                         "anyhow::Context::context", "anyhow::Context::with_context", "std::result::Result::context", "std::result::Result::inspect_err", "std::result::Result::inspect")
+
     def atom_of(self, t, kinds):
         for at in self.atoms:
             if at.kind in kinds and at.match(t):
                 return at
         if "opt" in kinds and t[0] == "call" and t[1] in self.SOMENESS_PRESERVING and t[2]:
             return self.atom_of(t[2][0], ("opt",))
+        if "bool" in kinds and t[0] == "call" and t[1] in self.OKNESS_PRESERVING and t[2]:
+            return self.atom_of(t[2][0], ("bool",))
         return None
 
     def truth(self, t, val, killed, depth=0, known=None):
@@ -343,6 +349,32 @@ class Walker:
                 tg = [b for b, ls in edges.items() if (bool(good & set(ls)) == ok)]
                 if tg:
                     return tg
+            # `opt.ok_or_else(..)?` / `opt.context(..)?`: continues exactly when the Option atom is Some
+            ob = base
+            while ob[0] == "call" and ob[2] and (ob[1] in self.OKNESS_PRESERVING or ob[1] in ("std::option::Option::ok_or", "std::option::Option::ok_or_else", "std::option::Option::context", "std::option::Option::with_context")):
+                ob = ob[2][0]
+            if ob is not base or base is not x:
+                at = self.atom_of(ob, ("opt",))
+                if at is not None and at.name not in killed:
+                    ok = val[at.name] == "Some"
+                    good = {"Continue", "Ok", "Some"}
+                    tg = [b for b, ls in edges.items() if (bool(good & set(ls)) == ok)]
+                    if tg:
+                        return tg
+        # `match x { K => .., _ => .. }` on an integer: the same decision as `x == K`
+        ints = [l for l in labels if isinstance(l, int) and not isinstance(l, bool)]
+        if ints and scrut[0] != "discr":
+            hit = None
+            for k in ints:
+                a, ori = self.atom_cmp(scrut, ("const", k))
+                if a is None or a.name in killed:
+                    continue
+                v = val[a.name]
+                if v in ("=", "=="):
+                    return [b for b, ls in edges.items() if k in ls]
+                hit = a
+            if hit is not None and len(ints) == 1:
+                return [b for b, ls in edges.items() if "else" in ls]
         self.unrecognised.append((bb, scrut))
         return None
 
@@ -387,8 +419,10 @@ class Walker:
             changed = False
             for b in self.fn.blocks:
                 for s in b["s"]:
-                    if s["k"] == "assign" and not s["p"].get("pr") and s["p"]["l"] in tv and s["r"]["k"] == "use":
-                        pl = s["r"]["o"].get("m") or s["r"]["o"].get("c")
+                    if s["k"] == "assign" and not s["p"].get("pr") and s["p"]["l"] in tv and s["r"]["k"] in ("use", "un"):
+                        # `x = y` or `x = !y` (the value of `matches!` negated into a flag)
+                        oo = s["r"]["o"] if s["r"]["k"] == "use" else s["r"]["a"]
+                        pl = oo.get("m") or oo.get("c")
                         if pl is not None and not pl.get("pr") and pl["l"] not in tv and len(self.T.defs.get(pl["l"], ())) >= 2:
                             tv.add(pl["l"])
                             changed = True
@@ -458,6 +492,11 @@ class Walker:
                         v = ("V", "Ready", "Err") if self.fn.locals[dl].s.startswith("std::task::Poll<") else ("V", "Err")
                     elif q == "std::ops::Try::from_output":
                         v = ("V", "Ok")
+                    elif self.fn.locals[dl].s.startswith("std::result::Result<"):
+                        # the Result of a check that is an atom (`check(..).map_err(..)` returned from an inlined helper)
+                        at = self.atom_of(self.T.call_term(t), ("bool",))
+                        if at is not None and at.name not in k2:
+                            v = ("V", "Ok" if val[at.name] else "Err")
                 if v is None:
                     known.pop(dl, None)
                 else:
